@@ -199,9 +199,7 @@ type CellIDSnapper struct {
 
 // NewCellIDSnapper returns a snap function with the default level set.
 func NewCellIDSnapper() CellIDSnapper {
-	return CellIDSnapper{
-		level: MaxLevel,
-	}
+	return CellIDSnapperForLevel(MaxLevel)
 }
 
 // CellIDSnapperForLevel returns a snap function at the given level.
@@ -510,8 +508,9 @@ func (sf IntLatLngSnapper) MinEdgeVertexSeparation() s1.Angle {
 
 // SnapPoint returns a candidate snap site for the given point.
 func (sf IntLatLngSnapper) SnapPoint(point Point) Point {
+	// The grid is in degrees; the scaled coordinates need 64 bits (180 * 10^10).
 	input := LatLngFromPoint(point)
-	lat := s1.Angle(roundAngle(input.Lat * sf.from))
-	lng := s1.Angle(roundAngle(input.Lng * sf.from))
-	return PointFromLatLng(LatLng{lat * sf.to, lng * sf.to})
+	lat := math.Round(input.Lat.Degrees() * float64(sf.from))
+	lng := math.Round(input.Lng.Degrees() * float64(sf.from))
+	return PointFromLatLng(LatLngFromDegrees(lat*float64(sf.to), lng*float64(sf.to)))
 }
